@@ -15,6 +15,7 @@ import (
 
 	"github.com/fxamacker/cbor/v2"
 	"github.com/gofiber/fiber/v3/client"
+	"github.com/valyala/fasthttp"
 
 	"verifharness/internal/ev"
 	"verifharness/internal/gen"
@@ -95,6 +96,18 @@ type config struct {
 	JSONVal  any        `json:"json_val,omitempty"`
 	Form     []multi    `json:"form,omitempty"`
 	Files    []fileSpec `json:"files,omitempty"`
+	// Jar: cookies a cookie jar attached to the client holds for the target host when the request
+	// is built (path "/" or no path, so they match every request path). A cookie configured at
+	// client or request level must still arrive with its configured value; what is sent for a
+	// name only the jar knows is not judged here (client.jar does that).
+	Jar []jarPre `json:"jar,omitempty"`
+}
+
+type jarPre struct {
+	K    string `json:"k"`
+	V    string `json:"v"`
+	Path string `json:"path"`
+	API  int    `json:"api"` // 0 SetKeyValue, 1 SetByHost, 2 Set(uri)
 }
 
 const fidBase = "http://fid.test"
@@ -300,6 +313,30 @@ func genConfig(r *gen.Rand) *config {
 	ckKeys := []string{"sid", "theme", "c1"}
 	genLevelCommon(r, &cf.Client, hdrKeys, qKeys, ckKeys)
 	genLevelCommon(r, &cf.Req, hdrKeys, qKeys, ckKeys)
+	if r.Chance(1, 4) {
+		// a cookie jar that already holds cookies for the host, some under configured names
+		var pool []string
+		for _, lv := range []*level{&cf.Client, &cf.Req} {
+			for _, c := range lv.Cookies {
+				pool = append(pool, c.K)
+			}
+		}
+		pool = append(pool, ckKeys...)
+		n := r.Range(1, 3)
+		seen := map[string]bool{}
+		for i := 0; i < n; i++ {
+			k := gen.Pick(r, pool)
+			if seen[k] {
+				continue
+			}
+			seen[k] = true
+			j := jarPre{K: k, V: "jar" + r.StringFrom(gen.AlphaNum, r.Range(1, 5)), API: r.Intn(3)}
+			if j.API != 0 && r.Bool() {
+				j.Path = "/"
+			}
+			cf.Jar = append(cf.Jar, j)
+		}
+	}
 	// path parameters: every placeholder is configured at least at one level; each level may
 	// also hold names that are only prefix-related to placeholders, or unused.
 	for _, n := range used {
@@ -555,6 +592,33 @@ func (b *builder) send(cf *config) sendResult {
 	cl := b.rig.newClient()
 	if cf.UseBase {
 		cl.SetBaseURL(fidBase)
+	}
+	var jar *client.CookieJar
+	if len(cf.Jar) > 0 {
+		jar = client.AcquireCookieJar()
+		defer client.ReleaseCookieJar(jar)
+		const host = "fid.test"
+		for _, j := range cf.Jar {
+			ck := fasthttp.AcquireCookie()
+			ck.SetKey(j.K)
+			ck.SetValue(j.V)
+			if j.Path != "" {
+				ck.SetPath(j.Path)
+			}
+			switch j.API {
+			case 0:
+				jar.SetKeyValue(host, j.K, j.V)
+			case 1:
+				jar.SetByHost([]byte(host), ck)
+			default:
+				u := fasthttp.AcquireURI()
+				_ = u.Parse(nil, []byte(fidBase+"/"))
+				jar.Set(u, ck)
+				fasthttp.ReleaseURI(u)
+			}
+			fasthttp.ReleaseCookie(ck)
+		}
+		cl.SetCookieJar(jar)
 	}
 	lv := &cf.Client
 	applyMultis(lv.Hdr, fnAPI{
@@ -1036,14 +1100,27 @@ func (cf *config) judge(p *parsed) []finding {
 			continue
 		}
 		det := map[string]any{"name": k, "expected": strconv.QuoteToASCII(w.V), "received": hx(g)}
+		jarV, inJar := "", false
+		for _, j := range cf.Jar {
+			if j.K == k {
+				jarV, inJar = j.V, true
+			}
+		}
 		if cv, ok := both[k]; ok && cv != w.V && len(g) == 1 && g[0] == cv {
 			out = append(out, finding{"precedence|cookie", "client-level cookie won over the request-level one", det})
+		} else if inJar && len(g) == 1 && g[0] == jarV {
+			det["jar_value"] = jarV
+			out = append(out, finding{"precedence|cookie|jar-over-configured", "the cookie jar's cookie of the same name replaced an explicitly configured cookie", det})
 		} else {
 			out = append(out, finding{"fidelity|cookie|" + manner([]string{w.V}, g) + "|" + w.Cl, "cookie did not arrive with the configured value", det})
 		}
 	}
+	jarName := map[string]bool{}
+	for _, j := range cf.Jar {
+		jarName[j.K] = true
+	}
 	for _, c := range p.Cookies {
-		if _, ok := wantCk[c.K]; !ok {
+		if _, ok := wantCk[c.K]; !ok && !jarName[c.K] {
 			out = append(out, finding{"fidelity|cookie|unconfigured-key-arrived", "a cookie arrived that was never configured",
 				map[string]any{"name": strconv.QuoteToASCII(c.K), "received": hx(gotCk[c.K])}})
 			break
@@ -1314,6 +1391,15 @@ func (fe *fidEngine) runConfig(c *ev.Case, cf *config, builds int) {
 	if cf.prefixNames() {
 		e.Stat("prefix_name_configs", 1)
 	}
+	for _, j := range cf.Jar {
+		for _, lv := range []*level{&cf.Client, &cf.Req} {
+			for _, ck := range lv.Cookies {
+				if ck.K == j.K {
+					e.Stat("jar_cookie_under_configured_name", 1)
+				}
+			}
+		}
+	}
 }
 
 func sigWord(s string) string {
@@ -1360,5 +1446,7 @@ func runFidelity(e *ev.Env) {
 		}
 		fe.runConfig(c, cf, builds)
 	})
+	// typed values through the ...WithStruct setters
+	e.Cases("structs", e.N(1500, 150000), func(c *ev.Case) { fe.runStructs(c) })
 	e.Stat("server_requests", int64(rig.n))
 }
